@@ -41,6 +41,17 @@ def draw(rng, i):
         chi, wedge = 0.0, rng.uniform(-0.5, 0.5)
     else:
         chi, wedge = rng.uniform(-0.5, 0.5), rng.uniform(-0.5, 0.5)
+    # low scattering angles and reflections just OUTSIDE the blind cone of the rotation axis (both solutions exist, a degree or less
+    # apart): the discriminant of the omega equation scales with sin^4(theta) there, so an absolute threshold on it eats real solutions
+    m = i % 25
+    if m in (3, 11, 19):
+        tth = math.radians(10 ** rng.uniform(-1.0, 0.5))
+        chi = wedge = 0.0
+        s = math.sin(tth / 2) * (1.0 + 10 ** rng.uniform(-4.5, -2.0))
+        phi = rng.uniform(0, 2 * math.pi)
+        v = np.array([s * math.cos(phi), s * math.sin(phi), rng.choice([-1.0, 1.0]) * math.sqrt(1.0 - s * s)])
+    elif m in (7, 15):
+        tth = math.radians(10 ** rng.uniform(-1.0, 0.5))
     g = v * math.sin(tth / 2)
     return g, tth, chi, wedge
 
@@ -162,13 +173,15 @@ def check_one(mn, m, g, tth, chi, wedge):
     if abs(d0) > 1e-6 and len(omp) != (2 if d0 > 0 else 0):
         bad('find_omega:count', len(omp), 2 if d0 > 0 else 0)
     # agreement where tilts coincide
-    if chi == 0 and wedge == 0 and abs(d0) > 1e-6:
+    # (below 3 degrees only away from the blind cone: there cos(2 theta) - 1 loses digits and the four algebraically different routes of the reviewed code agree to
+    #  1e-5 only near the blind cone; the counts and the diffraction condition of every solution are still checked at those angles)
+    if chi == 0 and wedge == 0 and abs(d0) > (1e-6 if tth > math.radians(3.0) else 0.1):
         sets = [sorted(np.asarray(x, float).tolist()) for x in (om, omq, omw, omp)]
         for s in sets[1:]:
             if len(s) != len(sets[0]) or any(abs(x - y) > 1e-7 for x, y in zip(s, sets[0])):
                 bad('solvers agree at zero tilt', sets, sets[0])
                 break
-    if chi == 0 and abs(dw) > 1e-6:
+    if chi == 0 and abs(dw) > (1e-6 if tth > math.radians(3.0) else 0.1):          # same low-angle guard as above
         o2, e2 = m.find_omega_general(gin, tth, 0.0, -wedge)
         if sorted(np.asarray(o2).tolist()) != sorted(np.asarray(omw).tolist()) and \
                 (len(o2) != len(omw) or any(abs(x - y) > 1e-7 for x, y in zip(sorted(o2), sorted(omw)))):
